@@ -277,6 +277,10 @@ fn evm_requests(c: &Ctx, rng: &mut Rng) -> (String, Value) {
         (0xfc, getLastSatLocationCall::new((txs[1].0.into(), U256::from(0), U256::from(0))).abi_encode()),
         (0xfc, getLastSatLocationCall::new((txs[1].0.into(), U256::from(1), U256::from(100))).abi_encode()),
         (0xfc, getLastSatLocationCall::new((txs[1].0.into(), U256::MAX, U256::MAX)).abi_encode()),
+        // vout at and around the number of outputs (the transaction has 2), sat at and around the output values
+        (0xfc, getLastSatLocationCall::new((txs[1].0.into(), U256::from(2), U256::from(0))).abi_encode()),
+        (0xfc, getLastSatLocationCall::new((txs[1].0.into(), U256::from(3), U256::from(0))).abi_encode()),
+        (0xfc, getLastSatLocationCall::new((txs[1].0.into(), U256::from(rng.below(4)), U256::from(*rng.pick(&[0u64, 1, 1499, 1500, 1501, 2999, 3000, 3001, 5000, 5001])))).abi_encode()),
         (0xfc, getLastSatLocationCall::new((txs[0].0.into(), U256::from(0), U256::from(0))).abi_encode()),
     ];
     let with_overrides = |to: String, data: Vec<u8>| {
